@@ -3,6 +3,7 @@ package props
 import (
 	"bytes"
 	"compress/flate"
+	"encoding/base32"
 	"encoding/base64"
 	"encoding/hex"
 	"encoding/xml"
@@ -529,19 +530,23 @@ func c12Sequence(c *core.Ctx, k c12Cfg, length int) {
 				bad("message/status", lr.Status.StatusCode.Value)
 			}
 		}
-		// ID freshness observed at the random source
-		if !strings.HasPrefix(id, "id-") {
-			bad("id/format", "ID "+id)
+		// ID freshness observed at the random source. The property fixes no format: an ID is fine if it can be seen to
+		// carry >=16 bytes the random source served during this call in any common text encoding; it is a violation if
+		// fewer than 16 bytes were drawn at all, or if the ID decodes to bytes of which only a part came from the source
+		// (padded or truncated); a derivation the monitor cannot read (a hash, say) is recorded as inconclusive.
+		if len(served) < 16 {
+			bad("id/entropy", fmt.Sprintf("only %d bytes were drawn from the random source while ID %q was made", len(served), id))
 			return
 		}
-		raw, herr := hex.DecodeString(strings.TrimPrefix(id, "id-"))
-		if herr != nil || len(raw) < 16 {
-			bad("id/entropy", fmt.Sprintf("ID %q carries %d random bytes (<16)", id, len(raw)))
+		switch verdict, detail := c12IDDerivation(id, served); verdict {
+		case "partial":
+			bad("id/not-from-random-source", fmt.Sprintf("ID %q is only partly made of bytes served by RandReader during this call (%s; %d bytes served)", id, detail, len(served)))
 			return
-		}
-		if !bytes.Contains(served, raw) {
-			bad("id/not-from-random-source", fmt.Sprintf("ID %q is not made of bytes served by RandReader during this call (%d bytes served)", id, len(served)))
+		case "short":
+			bad("id/entropy", fmt.Sprintf("ID %q carries %s", id, detail))
 			return
+		case "unknown":
+			c.Inconclusive("ID derivation from the random source not recognised (format " + detail + ")")
 		}
 		if prev, dup := seen[id]; dup {
 			bad("id/reused", "ID "+id+" already used by "+prev)
@@ -621,3 +626,49 @@ func boolInt(b bool) int {
 }
 
 var c12LiveSP *saml.ServiceProvider
+
+// c12IDDerivation reports how id relates to the bytes the random source served: "ok" (carries >=16 served bytes in hex,
+// base64 or base32 after an optional prefix), "short" (decodes, fewer than 16 bytes), "partial" (decodes to >=16 bytes of
+// which a run of >=6 comes from the source but not all), "unknown" (no readable relation).
+func c12IDDerivation(id string, served []byte) (string, string) {
+	bodies := []string{id}
+	for _, p := range []string{"id-", "id_", "id", "_", "ID-", "urn:uuid:"} {
+		if strings.HasPrefix(id, p) {
+			bodies = append(bodies, strings.TrimPrefix(id, p))
+		}
+	}
+	decoders := []struct {
+		name string
+		f    func(string) ([]byte, error)
+	}{
+		{"hex", func(s string) ([]byte, error) { return hex.DecodeString(strings.ReplaceAll(s, "-", "")) }},
+		{"base64", base64.StdEncoding.DecodeString}, {"base64raw", base64.RawStdEncoding.DecodeString},
+		{"base64url", base64.URLEncoding.DecodeString}, {"base64rawurl", base64.RawURLEncoding.DecodeString},
+		{"base32", base32.StdEncoding.DecodeString}, {"base32hex", base32.HexEncoding.DecodeString},
+	}
+	best, bestDetail := "unknown", "unrecognised"
+	for _, b := range bodies {
+		for _, d := range decoders {
+			raw, err := d.f(b)
+			if err != nil || len(raw) == 0 {
+				continue
+			}
+			switch {
+			case len(raw) >= 16 && bytes.Contains(served, raw):
+				return "ok", d.name
+			case len(raw) < 16 && bytes.Contains(served, raw) && d.name == "hex":
+				if best == "unknown" {
+					best, bestDetail = "short", fmt.Sprintf("%d random bytes (<16)", len(raw))
+				}
+			case len(raw) >= 16:
+				for i := 0; i+6 <= len(raw); i++ {
+					if bytes.Contains(served, raw[i:i+6]) {
+						best, bestDetail = "partial", d.name+"-decoded bytes share a run with the served stream"
+						break
+					}
+				}
+			}
+		}
+	}
+	return best, bestDetail
+}
